@@ -225,6 +225,15 @@ func (e *LinEnv) CondConstraints(cond ssa.Value, truth bool) []Constraint {
 		return []Constraint{le(y, x, false)}
 	case token.EQL:
 		return []Constraint{le(x, y, false), le(y, x, false)}
+	case token.NEQ:
+		// len(x) != 0 (a length is never negative): len(x) >= 1
+		for _, p := range [][2]ssa.Value{{b.X, b.Y}, {b.Y, b.X}} {
+			if _, isLen := IsBuiltinCall(p[0], "len"); isLen {
+				if k, ok := p[1].(*ssa.Const); ok && k.Value != nil && k.Value.ExactString() == "0" {
+					return []Constraint{le(NewLin(1), e.Lin(p[0]), false)}
+				}
+			}
+		}
 	}
 	return nil
 }
